@@ -288,6 +288,9 @@ func check(e *sched.Exec) string {
 		return "HARNESS no snapshot"
 	}
 	if d, _ := f["done"].(bool); !d {
+		if faulted, _ := f["faulted"].(bool); !faulted {
+			return fmt.Sprintf("a call never returned although no fault had been injected (the workload completes on the default schedule); blocked=%v", f["blocked"])
+		}
 		return fmt.Sprintf("a pending call never returned after the transport failure; blocked=%v", f["blocked"])
 	}
 	if n, _ := f["active"].(int); n != 0 {
@@ -326,12 +329,12 @@ func check(e *sched.Exec) string {
 }
 
 // calls counts the transport calls of a fault-free default-schedule run.
-func calls(cfg wl.Config, wname string) (cw, cr, sw, sr int, payloads map[string][]int) {
+func calls(cfg wl.Config, wname string) (cw, cr, sw, sr int, payloads map[string][]int, completes bool) {
 	payloads = map[string][]int{}
 	e := sched.Run(sched.Opts{NoKeys: true}, nil, nil, func() {
 		env := wl.NewEnv(cfg, handler)
 		env.Facts["log"] = newLog()
-		vs.Go("client", func() { workloads[wname](env) })
+		vs.Go("client", func() { workloads[wname](env); env.Facts["completes"] = true })
 		sched.Quiesce()
 		env.Facts["n"] = [4]int{env.Cli.Writes(), env.Cli.Reads(), env.Srv.Writes(), env.Srv.Reads()}
 		for _, b := range env.Cli.Log {
@@ -343,7 +346,8 @@ func calls(cfg wl.Config, wname string) (cw, cr, sw, sr int, payloads map[string
 		env.Teardown()
 	})
 	n := wl.GetEnv(e).Facts["n"].([4]int)
-	return n[0], n[1], n[2], n[3], payloads
+	completes, _ = wl.GetEnv(e).Facts["completes"].(bool)
+	return n[0], n[1], n[2], n[3], payloads, completes
 }
 
 func basePlans(tier string) []mc.Plan {
@@ -358,7 +362,13 @@ func basePlans(tier string) []mc.Plan {
 	}
 	for _, cfg := range cfgs {
 		for _, w := range wnames {
-			cw, cr, sw, sr, pl := calls(cfg, w)
+			cw, cr, sw, sr, pl, completes := calls(cfg, w)
+			if !completes {
+				// the workload itself deadlocks over this transport without any fault (e.g. both
+				// peers write without reading over a rendezvous pipe): there is no "pending call at
+				// the moment of the failure" to speak of
+				continue
+			}
 			// fault-free run explored too
 			ps = append(ps, mc.Plan{Scen: &mc.Scenario{Name: fmt.Sprintf("fault[%s | %s | none]", cfg, w), Body: body(cfg, w, nil), Check: check, Model: sched.Deviation, NoCache: true}, Bounds: []int{0, 1}})
 			type pos struct {
